@@ -161,6 +161,7 @@ func runFaultErrTest(t *testing.T, prop, test string, gen func(rt *rapid.T, w *W
 			return
 		}
 		stats.Label("cmd." + target.Kind)
+		stats.EvalN(oc.points) // every faulted re-run is an execution
 		stats.LabelN("fault_points", oc.points)
 		stats.LabelN("faults_that_made_the_command_fail", oc.killed)
 		for _, n := range oc.nontrivial {
